@@ -500,9 +500,7 @@ func c08SCIONInputs(dstPort uint16) func(r *ev.Run, rng *rand.Rand, e *c08Env) [
 		for l := 0; l <= 44; l++ {
 			p := c08SCIONBase(e, rng, l%4, dstPort, ntp())
 			o := &slayers.EndToEndOption{OptType: slayers.OptTypeAuthenticator, OptData: randBytes(rng, l)}
-			if l >= 5 {
-				o.OptData[0], o.OptData[1], o.OptData[2], o.OptData[3], o.OptData[4] = 0, 3, 0, 123, 0 // the time service's client SPI, CMAC
-			}
+			copy(o.OptData, []byte{0, 3, 0, 123, 0}) // the time service's client SPI, CMAC — as much of it as the option holds
 			p.E2E = []*slayers.EndToEndOption{o}
 			cls := "scion-authenticator-option-length"
 			if l == 28 {
